@@ -21,6 +21,7 @@ RULE = ("2..5 real nodes per scenario; one node under test runs a seeded history
         "open on the reference addresses, EN_AA=3E, DYNPD=3F. Non-trivial: >=1 role change "
         "(RX->TX->RX) was observed in the scenario; distinct = (node class, call history with "
         "outcome class per call, fault plan).")
+RULE += (" Later rounds added: all ordered pairs of call kinds on one node (a third with multicast off), two frames waiting in the RX FIFO for one update(), multicast-off nodes under test.")
 REQUIRED = {"invariant_at_return": 3000, "role_changes": 300, "exception_returns": 20,
             "failed_tx_returns": 50}
 BUDGET = {"quick": 480, "thorough": 900}
